@@ -362,6 +362,31 @@ PROPS["C15"] = {
     "assumptions": [],
 }
 
+HOOK_COMMITS.append("f14078153")
+
+PROPS["C14"] = {
+    "module": "GstProofs.Props.C14",
+    "theorems": [
+        "GstProofs.C14.white_noise_image", "GstProofs.C14.image_cov_psd", "GstProofs.C14.imageCov_toMatrix",
+        "GstProofs.C14.precision_simulation", "GstProofs.C14.precision_certificate",
+        "GstProofs.C14.mixing_sills", "GstProofs.C14.mixing_transposed_differs", "GstProofs.C14.bands_norm",
+        "GstProofs.C14.equidistributed", "GstProofs.C14.uniform_mean_all_seeds",
+        "GstProofs.C14.uniformAB_range", "GstProofs.C14.intUniform_range",
+        "GstProofs.C14.withinSigmas_mono", "GstProofs.C14.withinSigmas_exact",
+    ],
+    "harnesses": ["vh_c14"],
+    "level": "proof",
+    "timeout": {"quick": 3000, "thorough": 14000},
+    "technique": "Lean 4 theorems on the second-order algebra shared by the simulators (covariance of a linear image of a white noise = A At, positive semi-definite; simulation through the Cholesky factor of a precision matrix has covariance Q^-1; the turning-band mixing matrix V diag(sqrt lambda) reproduces the matrix of sills and the transposed variant does not; normalisation by 1/sqrt(nbands)) and on the congruential generator over ALL seeds (exact equidistribution of the k-th draw, supports of the uniform laws); deterministic certificates in exact rational arithmetic on the library's own linear maps (dense Cholesky, sparse-Cholesky and Chebyshev SPDE simulators applied to the unit vectors; turning-band mixing coefficients and normalisation observed through a guarded hook); Monte-Carlo correspondence for the laws themselves: empirical means / (cross-)covariances of turning bands (points and grids, 1-3 variables, nested anisotropic structures), FFT, spectral simulations and of 20 basic random laws, judged at 6 standard deviations by the Lean driver",
+    "level_text": "Partial proof: what is algebra is a theorem (every size) and is tied to the library by exact certificates on its own matrices; that the simulated fields have the law of the model (turning-band, FFT and spectral constructions; rejection samplers of Law.cpp) is a statistical statement which no executable model can carry: it is examined on fixed-size samples (1500 / 6000 realisations per configuration, 60 000 / 400 000 draws per law) with an acceptance band of 6 standard deviations computed from the Gaussian fourth-moment formula (sample fourth moment for the laws), decided in exact arithmetic.",
+    "level_note": "Trusted: Lean kernel + 3 standard axioms; the published turning-band / spectral / circulant-embedding representations (not proved); the Monte-Carlo part can only refute: a deviation smaller than the sampling error of the chosen sample size is not seen. Known finding F84 (turning-band mixing matrix uses the eigenvectors by rows: wrong cross-covariances for 2+ variables) is reported on the current tree; F83, F85-F90 were repaired.",
+    "rule": "17 law checks (support, mean, variance) + per configuration (8 quick / 60 thorough; 1-3 D): turning bands of a 1-3 variable nested model (9 structure kinds, anisotropy + rotation, 60-200 bands) on 5 points or a small (possibly rotated) grid: count of realisations, mixing certificate per structure, normalisation, means and all (cross-)covariances of up to 6 points; FFT on a 12 / 6x6 / 4x4x4 grid (4 structure kinds, anisotropic): 5 nodes; spectral simulation (4 kinds): 5 points; dense Cholesky (precision and covariance forms) on 3-7 points; SPDE Matern operators on a 5-16 node mesh (sparse Cholesky exact, Chebyshev within 1/32). distinct = distinct request line",
+    "trivial": lambda line: False,
+    "trusted_base": TB_COMMON + ["observation hook (commit f14078153, guarded by GSTLEARN_VERIF, add-only)", "Gaussian fourth-moment formula for the variance of an empirical covariance (turning-band fields with >= 60 bands are close to Gaussian; the band is 6 standard deviations wide)"],
+    "uncovered": ["the law of the simulated fields beyond its first two moments", "that each 1-D band process has the turning-band covariance of its structure (observed through the Monte-Carlo run only)", "SPDE simulation end to end (mesh discretisation error is not a property of the code)", "simulations on the sphere, substitution / Boolean / plurigaussian simulators", "the std::mt19937 'new style' generator"],
+    "assumptions": ["acceptance band of 6 standard deviations: a correct implementation fails a given comparison with probability < 2e-9"],
+}
+
 PROPS["C17"] = {
     "module": "GstProofs.Props.C17",
     "theorems": [
